@@ -255,7 +255,7 @@ def run(tier, seed, replay=None):
             if rec and hm.model.transcript is not None and len(hm.model.transcript) < 60:
                 xcheck.append((hm.model.last_request, list(hm.model.transcript), hm.last_raw))
             real = H.canon_items(items)
-            if H.canon_items(mi) != real or rc != c.rc:
+            if not H.same_items(mi, items) or rc != c.rc:
                 out.disagreements.append({"correspondence": "Hook.main <-> bin/dippy-hook", "model": str(H.canon_items(mi)),
                                           "impl": str(real), **H.describe(c, sc)})
     finally:
